@@ -349,6 +349,10 @@ def _clean_using_glob(
                 matches.remove(symlink_dir)
     # Now clean the rest
     for path in matches:
+        if not os.path.lexists(path):
+            # Already removed along with a matching parent dir or symlink dir
+            # (redundant subpaths are not always filtered out of the matches)
+            continue
         remove_dir_or_file(path)
 
 
